@@ -42,6 +42,35 @@ func isNameRune(r rune) bool {
 	return unicode.In(r, unicode.L, unicode.Mn, unicode.Nd, unicode.Pc) || r == 0x200D || r == 0x200C
 }
 
+// ReplacementOverflows reports whether a $ or ${ in repl (read with the same
+// left-to-right scan as Expand) is followed by a run of digits whose value does
+// not fit a 32-bit group number. The engine, like .NET, rejects such a
+// replacement string with "capture group number out of range".
+func ReplacementOverflows(repl string) bool {
+	r := []rune(repl)
+	for i := 0; i < len(r); i++ {
+		if r[i] != '$' || i+1 >= len(r) {
+			continue
+		}
+		if r[i+1] == '$' {
+			i++
+			continue
+		}
+		j := i + 1
+		if r[j] == '{' {
+			j++
+		}
+		n := int64(0)
+		for ; j < len(r) && r[j] >= '0' && r[j] <= '9'; j++ {
+			n = n*10 + int64(r[j]-'0')
+			if n > 1<<31-1 {
+				return true
+			}
+		}
+	}
+	return false
+}
+
 // Expand evaluates a replacement string against one match following the
 // documented $-grammar: $n, ${n}, ${name}, $$, $&, $`, $', $+, $_; a reference
 // to a group that does not exist, and any other $, stays literal.
